@@ -14,6 +14,9 @@ open Neumann Neumann.Proto Neumann.FramedLog Neumann.TxWal
 
 structure DState where
   dict : List (List Nat × Entry) := []
+  /-- record sizes announced since the last `new`: canonical ids are re-used by every process
+      lineage of the harness with other real ids / lock handles, whose payloads may differ in size -/
+  sizes : List (Entry × Nat) := []
   coord : Coord := { cfg := { prepareTimeoutMs := 5000, maxConcurrent := 100 } }
 
 def phaseNum : Phase → Nat
@@ -124,9 +127,9 @@ def deOf (d : List (List Nat × Entry)) (p : List Nat) : Option Entry :=
 
 /-- size of the record of `e` in the file: the payload the harness announced for it (an entry
     never announced has no known size; `needs` makes the harness announce it first) -/
-def szOf (d : List (List Nat × Entry)) (e : Entry) : Nat :=
-  match d.find? (fun q => q.2 == e) with
-  | some q => 8 + q.1.length
+def szOf (d : List (Entry × Nat)) (e : Entry) : Nat :=
+  match d.find? (fun q => q.1 == e) with
+  | some q => q.2
   | none => 8
 
 /-- answer of a coordinator call: result | records appended by the call | memory afterwards.
@@ -141,13 +144,13 @@ def coordAns (s : DState) (r : Coord × Res) : DState × String :=
 /-- a call that may write to a size-limited WAL: every record it could write must have a known
     size.  The records are the ones the same call writes on an unlimited WAL. -/
 def sized (s : DState) (f : (Entry → Nat) → Coord → Coord × Res) : DState × String :=
-  let sz := szOf s.dict
+  let sz := szOf s.sizes
   match s.coord.cfg.walCap with
   | none => coordAns s (f sz s.coord)
   | some _ =>
     let c0 := { s.coord with cfg := { s.coord.cfg with walCap := none } }
     let att := (f sz c0).1.log.drop c0.log.length
-    let missing := att.filter (fun e => !(s.dict.any (fun q => q.2 == e)))
+    let missing := (s.coord.log ++ att).filter (fun e => !(s.sizes.any (fun q => q.1 == e)))
     if missing.isEmpty then coordAns s (f sz s.coord)
     else (s, "need " ++ " ".intercalate (missing.map showEntry))
 
@@ -156,8 +159,9 @@ def txStep (s : DState) (line : String) : DState × String :=
   let crc := Crc32.crc32
   match words line with
   | ["def", h, tok] => match unhex h, parseEntry tok with
-      | some b, some e => ({ s with dict := (b, e) :: s.dict }, "ok") | _, _ => bad
-  | ["reset_dict"] => ({ s with dict := [] }, "ok")
+      | some b, some e => ({ s with dict := (b, e) :: s.dict, sizes := (e, 8 + b.length) :: s.sizes }, "ok")
+      | _, _ => bad
+  | ["reset_dict"] => ({ s with dict := [], sizes := [] }, "ok")
   | ["crc", h] => match unhex h with
       | some b => (s, toString (crc b)) | none => bad
   | ["frame", h] => match unhex h with
@@ -177,15 +181,20 @@ def txStep (s : DState) (line : String) : DState × String :=
   | ["log"] => (s, showEntries s.coord.log)
   | ["new", t, mx, cap, rot] => match t.toNat?, mx.toNat?, cap.toNat?, rot.toNat? with
       | some t, some mx, some cap, some rot =>
-          ({ s with coord := { cfg := { prepareTimeoutMs := t, maxConcurrent := mx, walCap := some cap,
-                                        autoRotate := rot != 0 } } }, "ok")
+          ({ s with sizes := [], coord := { cfg := { prepareTimeoutMs := t, maxConcurrent := mx, walCap := some cap,
+                                                     autoRotate := rot != 0 } } }, "ok")
       | _, _, _, _ => bad
   | ["new", t, mx] => match t.toNat?, mx.toNat? with
-      | some t, some mx => ({ s with coord := { cfg := { prepareTimeoutMs := t, maxConcurrent := mx } } }, "ok")
+      | some t, some mx =>
+          ({ s with sizes := [], coord := { cfg := { prepareTimeoutMs := t, maxConcurrent := mx } } }, "ok")
       | _, _ => bad
   | ["restart", h, now] => match unhex h, now.toNat? with
       | some b, some now => (match restartBytes crc (deOf s.dict) s.coord.cfg b now with
-          | some c => ({ s with coord := c }, s!"ok | {showEntries c.log} | {showCoord c}")
+          | some c =>
+              -- the records of the file keep the sizes they have in it
+              let ps := (parse crc (fun p => (deOf s.dict p).isSome) (openRepair b)).1
+              let szs := ps.filterMap (fun p => (deOf s.dict p).map (fun e => (e, 8 + p.length)))
+              ({ s with coord := c, sizes := szs ++ s.sizes }, s!"ok | {showEntries c.log} | {showCoord c}")
           | none => ({ s with coord := { cfg := s.coord.cfg } }, "err checksum"))
       | _, _ => bad
   | ["lock", tx, h] => match tx.toNat?, h.toNat? with
